@@ -210,6 +210,53 @@ def do_fs(op, a):
             if mode == 'after_replace':
                 raise Crash()
             return r
+        if mode == 'syscall':
+            # independent of HOW the writer is coded: the process dies right before its n-th call that changes the file system
+            # below the project roots (open for writing, os.open with write flags, replace / rename / unlink / remove / rmdir)
+            import io as _io, builtins as _bi
+            roots_ = tuple(fs_roots())
+            names = ['replace', 'rename', 'unlink', 'remove', 'rmdir']
+            saved = {nm: getattr(_os, nm) for nm in names}
+            saved_open, saved_ioopen, saved_osopen = _bi.open, _io.open, _os.open
+            def under(p_):
+                try:
+                    return str(_os.fspath(p_)).startswith(roots_)
+                except TypeError:
+                    return False
+            def tick(p_):
+                if under(p_):
+                    if state['writes'] == n:
+                        raise Crash()
+                    state['writes'] += 1
+            def mk(nm):
+                def f(p_, *aa, **kw):
+                    tick(p_)
+                    return saved[nm](p_, *aa, **kw)
+                return f
+            def my_open(file, mode_='r', *aa, **kw):
+                if any(ch in str(mode_) for ch in 'wax+'):
+                    tick(file)
+                return saved_ioopen(file, mode_, *aa, **kw)
+            def my_osopen(path, flags, *aa, **kw):
+                if flags & (_os.O_WRONLY | _os.O_RDWR | _os.O_CREAT | _os.O_TRUNC | _os.O_APPEND):
+                    tick(path)
+                return saved_osopen(path, flags, *aa, **kw)
+            for nm in names:
+                setattr(_os, nm, mk(nm))
+            _bi.open = my_open; _io.open = my_open; _os.open = my_osopen
+            try:
+                try:
+                    WriteToPaths(cfg or None).update(sid, data=data)
+                    res = ['completed']
+                except Crash:
+                    res = ['crashed']
+                except Exception as e:
+                    res = ['raise', exn_name(e)]
+            finally:
+                for nm in names:
+                    setattr(_os, nm, saved[nm])
+                _bi.open = saved_open; _io.open = saved_ioopen; _os.open = saved_osopen
+            return res
         pathlib.Path.write_text = wt
         _os.replace = rep
         try:
